@@ -1,3 +1,424 @@
 import SodiumModel.Model.Alloc
+import SodiumModel.Proofs.Pad
+/-
+  Helper lemmas for C17 (guarded allocation). All lemmas live in namespace Sodium.AllocP.
+  Page sizes are given as `pg.toNat = 2 ^ k` with `5 ≤ k ≤ 30`.
+-/
+open Sodium Sodium.Model Sodium.Model.Alloc
 namespace Sodium.AllocP
+
+/-! ### the page mask `~~~(pg - 1)` -/
+
+/-- `n &&& (2^64 - 2^k)` clears the low `k` bits -/
+theorem and_himask (n k : Nat) (hn : n < 2 ^ 64) (hk : k ≤ 64) :
+    n &&& (2 ^ 64 - 2 ^ k) = n / 2 ^ k * 2 ^ k := by
+  have e : 2 ^ 64 - 2 ^ k = 2 ^ k * (2 ^ (64 - k) - 1) := by
+    rw [Nat.mul_sub, ← Nat.pow_add]
+    congr 2 <;> omega
+  apply Nat.eq_of_testBit_eq
+  intro i
+  rw [Nat.testBit_and, e, Nat.testBit_two_pow_mul, Nat.testBit_mul_two_pow, Nat.testBit_two_pow_sub_one,
+    Nat.testBit_div_two_pow]
+  by_cases h1 : k ≤ i
+  · have e2 : i - k + k = i := by omega
+    rw [e2]
+    by_cases h2 : i < 64
+    · have : i - k < 64 - k := by omega
+      simp [h1, this]
+    · have : n.testBit i = false :=
+        Nat.testBit_lt_two_pow (Nat.lt_of_lt_of_le hn (Nat.pow_le_pow_right (by omega) (by omega)))
+      have h3 : ¬ (i - k < 64 - k) := by omega
+      simp [this, h3]
+  · simp [h1]
+
+theorem pg_bounds (pg : UInt64) (k : Nat) (hk5 : 5 ≤ k) (hk30 : k ≤ 30) (hpg : pg.toNat = 2 ^ k) :
+    32 ≤ pg.toNat ∧ pg.toNat ≤ 2 ^ 30 := by
+  rw [hpg]
+  have h1 : 2 ^ 5 ≤ 2 ^ k := Nat.pow_le_pow_right (by decide) hk5
+  have h2 : 2 ^ k ≤ 2 ^ 30 := Nat.pow_le_pow_right (by decide) hk30
+  exact ⟨h1, h2⟩
+
+theorem pg_dvd_two64 (pg : UInt64) (k : Nat) (hk30 : k ≤ 30) (hpg : pg.toNat = 2 ^ k) :
+    2 ^ 64 = pg.toNat * 2 ^ (64 - k) := by
+  rw [hpg, ← Nat.pow_add]; congr 1; omega
+
+theorem pred_toNat (pg : UInt64) (h : 1 ≤ pg.toNat) : (pg - 1).toNat = pg.toNat - 1 := by
+  rw [UInt64.toNat_sub_of_le _ _ (UInt64.le_iff_toNat_le.mpr (by simpa using h))]; rfl
+
+theorem mask_toNat (pg : UInt64) (h : 1 ≤ pg.toNat) : (~~~(pg - 1)).toNat = 2 ^ 64 - pg.toNat := by
+  have := pg.toNat_lt
+  rw [UInt64.toNat_not, pred_toNat pg h]; simp only [UInt64.size]; omega
+
+theorem and_mask_toNat (pg x : UInt64) (k : Nat) (hk30 : k ≤ 30) (hpg : pg.toNat = 2 ^ k) :
+    (x &&& ~~~(pg - 1)).toNat = x.toNat / pg.toNat * pg.toNat := by
+  have h1 : 1 ≤ pg.toNat := by rw [hpg]; exact Nat.one_le_two_pow
+  rw [UInt64.toNat_and, mask_toNat pg h1, hpg]
+  exact and_himask x.toNat k x.toNat_lt (by omega)
+
+/-- `_page_round` -/
+theorem pageRound_toNat (pg size : UInt64) (k : Nat) (hk30 : k ≤ 30) (hpg : pg.toNat = 2 ^ k)
+    (hs : size.toNat + pg.toNat ≤ 2 ^ 64) :
+    (pageRound pg size).toNat = (size.toNat + pg.toNat - 1) / pg.toNat * pg.toNat := by
+  have h1 : 1 ≤ pg.toNat := by rw [hpg]; exact Nat.one_le_two_pow
+  unfold pageRound
+  rw [and_mask_toNat pg _ k hk30 hpg, UInt64.toNat_add, pred_toNat pg h1]
+  have : (size.toNat + (pg.toNat - 1)) % 2 ^ 64 = size.toNat + pg.toNat - 1 := by
+    rw [Nat.mod_eq_of_lt] <;> omega
+  rw [this]
+
+/-- rounding facts in a form `omega` can use -/
+theorem round_facts (n P : Nat) (hP : 0 < P) :
+    P ∣ (n + P - 1) / P * P ∧ n ≤ (n + P - 1) / P * P ∧ (n + P - 1) / P * P < n + P := by
+  have hd := Nat.div_add_mod (n + P - 1) P
+  have hm := Nat.mod_lt (n + P - 1) hP
+  rw [Nat.mul_comm] at hd
+  exact ⟨Nat.dvd_mul_left _ _, by omega, by omega⟩
+
+/-! ### layout -/
+
+/-- `toNat` of every field of the layout, under the acceptance condition of `_sodium_malloc` -/
+theorem layout_toNat (pg size : UInt64) (k : Nat) (hk5 : 5 ≤ k) (hk30 : k ≤ 30) (hpg : pg.toNat = 2 ^ k)
+    (h : size.toNat < 2 ^ 64 - 1 - 4 * pg.toNat) :
+    (layout pg size).unprotSize.toNat = (16 + size.toNat + pg.toNat - 1) / pg.toNat * pg.toNat ∧
+    (layout pg size).unprotOff.toNat = 2 * pg.toNat ∧
+    (layout pg size).canaryOff.toNat = 2 * pg.toNat + (layout pg size).unprotSize.toNat - (16 + size.toNat) ∧
+    (layout pg size).userOff.toNat = 2 * pg.toNat + (layout pg size).unprotSize.toNat - size.toNat ∧
+    (layout pg size).total.toNat = (3 * pg.toNat + (layout pg size).unprotSize.toNat) % 2 ^ 64 := by
+  obtain ⟨hlo, hhi⟩ := pg_bounds pg k hk5 hk30 hpg
+  have hswc : (CANARY_SIZE + size).toNat = 16 + size.toNat := by
+    rw [UInt64.toNat_add]; show (16 + size.toNat) % 2 ^ 64 = _; omega
+  have hR : (pageRound pg (CANARY_SIZE + size)).toNat = (16 + size.toNat + pg.toNat - 1) / pg.toNat * pg.toNat := by
+    rw [pageRound_toNat pg _ k hk30 hpg (by omega), hswc]
+  obtain ⟨-, r1, r2⟩ := round_facts (16 + size.toNat) pg.toNat (by omega)
+  rw [← hR] at r1 r2
+  have h2 : (pg * 2).toNat = 2 * pg.toNat := by rw [UInt64.toNat_mul]; show (pg.toNat * 2) % 2 ^ 64 = _; omega
+  have h3 : (pg * 2 + pageRound pg (CANARY_SIZE + size)).toNat = 2 * pg.toNat + (pageRound pg (CANARY_SIZE + size)).toNat := by
+    rw [UInt64.toNat_add, h2]; omega
+  have h4 : (pg * 2 + pageRound pg (CANARY_SIZE + size) - (CANARY_SIZE + size)).toNat =
+      2 * pg.toNat + (pageRound pg (CANARY_SIZE + size)).toNat - (16 + size.toNat) := by
+    rw [UInt64.toNat_sub_of_le _ _ (UInt64.le_iff_toNat_le.mpr (by rw [h3, hswc]; omega)), h3, hswc]
+  refine ⟨hR, h2, h4, ?_, ?_⟩
+  · show (pg * 2 + pageRound pg (CANARY_SIZE + size) - (CANARY_SIZE + size) + CANARY_SIZE).toNat = _
+    rw [UInt64.toNat_add, h4]
+    show (_ + 16) % 2 ^ 64 = 2 * pg.toNat + (pageRound pg (CANARY_SIZE + size)).toNat - size.toNat
+    omega
+  · show (pg + pg + pageRound pg (CANARY_SIZE + size) + pg).toNat = (3 * pg.toNat + (pageRound pg (CANARY_SIZE + size)).toNat) % 2 ^ 64
+    rw [UInt64.toNat_add, UInt64.toNat_add, UInt64.toNat_add]
+    omega
+
+theorem round_le_of_le_mul (n P M : Nat) (hP : 0 < P) (h : n ≤ M * P) : (n + P - 1) / P * P ≤ M * P := by
+  apply Nat.mul_le_mul_right
+  apply Nat.le_of_lt_succ
+  apply Nat.div_lt_of_lt_mul
+  rw [Nat.mul_succ, Nat.mul_comm]; omega
+
+theorem round_ge_of_mul_lt (n P M : Nat) (hP : 0 < P) (h : M * P < n) : (M + 1) * P ≤ (n + P - 1) / P * P := by
+  apply Nat.mul_le_mul_right
+  rw [Nat.le_div_iff_mul_le hP, Nat.add_mul]; omega
+
+/-- below `2^64 − 4·pg − 15` the total mapping size does not wrap -/
+theorem total_nowrap (pg size : UInt64) (k : Nat) (hk5 : 5 ≤ k) (hk30 : k ≤ 30) (hpg : pg.toNat = 2 ^ k)
+    (h : size.toNat + 16 + 4 * pg.toNat ≤ 2 ^ 64) :
+    3 * pg.toNat + (16 + size.toNat + pg.toNat - 1) / pg.toNat * pg.toNat < 2 ^ 64 := by
+  obtain ⟨hlo, hhi⟩ := pg_bounds pg k hk5 hk30 hpg
+  have hN := pg_dvd_two64 pg k hk30 hpg
+  have e4 : (2 ^ (64 - k) - 4) * pg.toNat = 2 ^ 64 - 4 * pg.toNat := by
+    rw [Nat.sub_mul, Nat.mul_comm _ pg.toNat, ← hN]
+  have := round_le_of_le_mul (16 + size.toNat) pg.toNat (2 ^ (64 - k) - 4) (by omega)
+    (by rw [e4]; omega)
+  rw [e4] at this
+  omega
+
+/-- in the 14-byte window just below the ENOMEM threshold the rounded size is `2^64 − 3·pg`
+    and `total_size` wraps to 0 -/
+theorem total_wrap (pg size : UInt64) (k : Nat) (hk5 : 5 ≤ k) (hk30 : k ≤ 30) (hpg : pg.toNat = 2 ^ k)
+    (h : size.toNat < 2 ^ 64 - 1 - 4 * pg.toNat) (hc : 2 ^ 64 < size.toNat + 16 + 4 * pg.toNat) :
+    (16 + size.toNat + pg.toNat - 1) / pg.toNat * pg.toNat = 2 ^ 64 - 3 * pg.toNat := by
+  obtain ⟨hlo, hhi⟩ := pg_bounds pg k hk5 hk30 hpg
+  have hN := pg_dvd_two64 pg k hk30 hpg
+  have hNge : 2 ^ 34 ≤ 2 ^ (64 - k) := Nat.pow_le_pow_right (by decide) (by omega)
+  have e4 : (2 ^ (64 - k) - 4) * pg.toNat = 2 ^ 64 - 4 * pg.toNat := by
+    rw [Nat.sub_mul, Nat.mul_comm _ pg.toNat, ← hN]
+  have e3 : (2 ^ (64 - k) - 4 + 1) * pg.toNat = 2 ^ 64 - 3 * pg.toNat := by
+    have : 2 ^ (64 - k) - 4 + 1 = 2 ^ (64 - k) - 3 := by omega
+    rw [this, Nat.sub_mul, Nat.mul_comm _ pg.toNat, ← hN]
+  have h1 := round_le_of_le_mul (16 + size.toNat) pg.toNat (2 ^ (64 - k) - 4 + 1) (by omega)
+    (by rw [e3]; omega)
+  have h2 := round_ge_of_mul_lt (16 + size.toNat) pg.toNat (2 ^ (64 - k) - 4) (by omega)
+    (by rw [e4]; omega)
+  rw [e3] at h1 h2
+  omega
+
+/-! ### recovering the mapping base -/
+
+/-- masking an aligned address plus an in-page offset gives the aligned address back -/
+theorem and_mask_add (pg a d : UInt64) (k : Nat) (hk30 : k ≤ 30) (hpg : pg.toNat = 2 ^ k)
+    (ha : a.toNat % pg.toNat = 0) (hd : d.toNat < pg.toNat) : (a + d) &&& ~~~(pg - 1) = a := by
+  have hN := pg_dvd_two64 pg k hk30 hpg
+  have hP : 0 < pg.toNat := by omega
+  obtain ⟨c, hc⟩ := Nat.dvd_of_mod_eq_zero ha
+  have hal := a.toNat_lt
+  have hcN : c < 2 ^ (64 - k) := by
+    apply Nat.lt_of_mul_lt_mul_left (a := pg.toNat); rw [← hc, ← hN]; exact hal
+  have hfit : a.toNat + pg.toNat ≤ 2 ^ 64 := by
+    have : pg.toNat * (c + 1) ≤ pg.toNat * 2 ^ (64 - k) := Nat.mul_le_mul_left _ hcN
+    rw [← hN, Nat.mul_succ, ← hc] at this; exact this
+  rw [← UInt64.toNat_inj, and_mask_toNat pg _ k hk30 hpg, UInt64.toNat_add,
+    Nat.mod_eq_of_lt (by omega), hc, Nat.mul_add_div hP, Nat.div_eq_of_lt hd, Nat.add_zero, Nat.mul_comm]
+
+theorem ring_id (base p2 R swc c : UInt64) :
+    base + (p2 + R - swc + c) - c = (base + p2) + (R - swc) := by
+  grind
+
+
+theorem recover_base (pg size base : UInt64) (k : Nat) (hk5 : 5 ≤ k) (hk30 : k ≤ 30) (hpg : pg.toNat = 2 ^ k)
+    (h : size.toNat < 2 ^ 64 - 1 - 4 * pg.toNat) (hbase : base.toNat % pg.toNat = 0) :
+    unprotectedFromUser pg (base + (layout pg size).userOff) = base + (layout pg size).unprotOff := by
+  obtain ⟨hlo, hhi⟩ := pg_bounds pg k hk5 hk30 hpg
+  have hN := pg_dvd_two64 pg k hk30 hpg
+  have hswc : (CANARY_SIZE + size).toNat = 16 + size.toNat := by
+    rw [UInt64.toNat_add]; show (16 + size.toNat) % 2 ^ 64 = _; omega
+  have hR : (pageRound pg (CANARY_SIZE + size)).toNat = (16 + size.toNat + pg.toNat - 1) / pg.toNat * pg.toNat := by
+    rw [pageRound_toNat pg _ k hk30 hpg (by omega), hswc]
+  obtain ⟨-, r1, r2⟩ := round_facts (16 + size.toNat) pg.toNat (by omega)
+  rw [← hR] at r1 r2
+  have hd : (pageRound pg (CANARY_SIZE + size) - (CANARY_SIZE + size)).toNat < pg.toNat := by
+    rw [UInt64.toNat_sub_of_le _ _ (UInt64.le_iff_toNat_le.mpr (by rw [hswc]; omega)), hswc]; omega
+  have ha : (base + pg * 2).toNat % pg.toNat = 0 := by
+    rw [UInt64.toNat_add, UInt64.toNat_mul]
+    show (base.toNat + pg.toNat * 2 % 2 ^ 64) % 2 ^ 64 % pg.toNat = 0
+    rw [Nat.mod_eq_of_lt (a := pg.toNat * 2) (by omega), Nat.mod_mod_of_dvd _ ⟨_, hN⟩, Nat.mul_comm,
+      Nat.add_mul_mod_self_right, hbase]
+  show (base + (pg * 2 + pageRound pg (CANARY_SIZE + size) - (CANARY_SIZE + size) + CANARY_SIZE) - CANARY_SIZE)
+    &&& ~~~(pg - 1) = base + pg * 2
+  rw [ring_id]
+  exact and_mask_add pg _ _ k hk30 hpg ha hd
+
+/-! ### ENOMEM conditions -/
+
+theorem malloc_enomem_iff (pg size : UInt64) (k : Nat) (hk5 : 5 ≤ k) (hk30 : k ≤ 30) (hpg : pg.toNat = 2 ^ k) :
+    sodium_malloc pg size = .enomem ↔ 2 ^ 64 - 1 - 5 * pg.toNat ≤ size.toNat := by
+  obtain ⟨hlo, hhi⟩ := pg_bounds pg k hk5 hk30 hpg
+  have h5 : (pg * 5).toNat = 5 * pg.toNat := by
+    rw [UInt64.toNat_mul]; show (pg.toNat * 5) % 2 ^ 64 = _; omega
+  have hthr : ((0xFFFFFFFFFFFFFFFF : UInt64) - pg * 5).toNat = 2 ^ 64 - 1 - 5 * pg.toNat := by
+    rw [UInt64.toNat_sub_of_le _ _ (UInt64.le_iff_toNat_le.mpr (by rw [h5]; show _ ≤ 2 ^ 64 - 1; omega)), h5]; rfl
+  unfold sodium_malloc
+  have hc : (size ≥ (0xFFFFFFFFFFFFFFFF : UInt64) - pg * 5) ↔ 2 ^ 64 - 1 - 5 * pg.toNat ≤ size.toNat := by
+    show (0xFFFFFFFFFFFFFFFF : UInt64) - pg * 5 ≤ size ↔ _
+    rw [UInt64.le_iff_toNat_le, hthr]
+  by_cases c : 2 ^ 64 - 1 - 5 * pg.toNat ≤ size.toNat
+  · simp [hc.mpr c, c]
+  · rw [if_neg (fun x => c (hc.mp x))]; simp [c]
+
+theorem allocarray_ok (pg count size : UInt64) (h : sodium_allocarray pg count size ≠ .enomem) :
+    count.toNat * size.toNat < 2 ^ 64 ∧
+    sodium_allocarray pg count size = sodium_malloc pg (UInt64.ofNat (count.toNat * size.toNat)) := by
+  unfold sodium_allocarray at h ⊢
+  by_cases c : count > 0 ∧ size ≥ (0xFFFFFFFFFFFFFFFF : UInt64) / count
+  · rw [if_pos c] at h; exact absurd rfl h
+  · rw [if_neg c]
+    have hmul : count * size = UInt64.ofNat (count.toNat * size.toNat) := by
+      rw [← UInt64.toNat_inj, UInt64.toNat_mul]; simp
+    refine ⟨?_, by rw [hmul]⟩
+    by_cases c0 : count.toNat = 0
+    · rw [c0]; omega
+    · have hpos : count > 0 := by
+        show (0 : UInt64) < count
+        rw [UInt64.lt_iff_toNat_lt]; show 0 < count.toNat; omega
+      have hlt : size.toNat < (2 ^ 64 - 1) / count.toNat := by
+        have : ¬ ((0xFFFFFFFFFFFFFFFF : UInt64) / count ≤ size) := fun x => c ⟨hpos, x⟩
+        rw [UInt64.le_iff_toNat_le, UInt64.toNat_div] at this
+        exact Nat.lt_of_not_le this
+      have h1 : count.toNat * (size.toNat + 1) ≤ 2 ^ 64 - 1 := by
+        calc count.toNat * (size.toNat + 1) ≤ count.toNat * ((2 ^ 64 - 1) / count.toNat) :=
+              Nat.mul_le_mul_left _ hlt
+          _ ≤ 2 ^ 64 - 1 := Nat.mul_div_le _ _
+      rw [Nat.mul_succ] at h1
+      omega
+
+theorem allocarray_overflow (pg count size : UInt64) (h : 2 ^ 64 ≤ count.toNat * size.toNat) :
+    sodium_allocarray pg count size = .enomem := by
+  by_cases c : sodium_allocarray pg count size = .enomem
+  · exact c
+  · have := (allocarray_ok pg count size c).1; omega
+
+/-! ### protection state machine -/
+
+/-- effect of one system call on the protection of page `i` -/
+def stepAt (pg : UInt64) (i : Nat) (q : Prot) : Sys → Prot
+  | .mprotect off len p =>
+    if off.toNat ≤ i * pg.toNat ∧ i * pg.toNat < off.toNat + len.toNat then p else q
+  | _ => q
+
+theorem applyCall_get (pg : UInt64) (pages : List Prot) (c : Sys) (i : Nat) :
+    (applyCall pg pages c)[i]? = (pages[i]?).map fun q => stepAt pg i q c := by
+  cases c <;> simp [applyCall, stepAt, List.getElem?_mapIdx]
+
+theorem foldl_applyCall_get (pg : UInt64) (cs : List Sys) (pages : List Prot) (i : Nat) :
+    (cs.foldl (applyCall pg) pages)[i]? = (pages[i]?).map fun q => cs.foldl (stepAt pg i) q := by
+  induction cs generalizing pages with
+  | nil => simp
+  | cons c cs ih =>
+    rw [List.foldl_cons, ih, applyCall_get]
+    cases pages[i]? <;> simp
+
+/-- a history of whole-region requests leaves page `i` with the last request's protection if the
+    page is inside the region, untouched otherwise -/
+theorem foldl_ops (pg : UInt64) (L : Layout) (i : Nat) (ops : List Op) (q : Prot) :
+    (ops.map (mprotectCall L)).foldl (stepAt pg i) q =
+      if L.unprotOff.toNat ≤ i * pg.toNat ∧ i * pg.toNat < L.unprotOff.toNat + L.unprotSize.toNat
+      then (ops.getLast?.map Op.prot).getD q else q := by
+  induction ops generalizing q with
+  | nil => simp
+  | cons o ops ih =>
+    rw [List.map_cons, List.foldl_cons, ih]
+    by_cases c : L.unprotOff.toNat ≤ i * pg.toNat ∧ i * pg.toNat < L.unprotOff.toNat + L.unprotSize.toNat
+    · rw [if_pos c, if_pos c]
+      cases ops with
+      | nil => simp [mprotectCall, stepAt, c]
+      | cons o' ops' =>
+        rw [List.getLast?_cons_cons, List.getLast?_eq_some_getLast (List.cons_ne_nil o' ops')]
+        rfl
+    · rw [if_neg c, if_neg c]; simp [mprotectCall, stepAt, c]
+
+theorem range_iff (P a b i : Nat) (hP : 0 < P) : (a * P ≤ i * P ∧ i * P < b * P) ↔ (a ≤ i ∧ i < b) := by
+  rw [Nat.mul_le_mul_right_iff hP, Nat.mul_lt_mul_right hP]
+
+/-- page protections after malloc and any history, in terms of the page count `3 + m` -/
+theorem pages_after_malloc (pg : UInt64) (L : Layout) (m : Nat) (hP : 0 < pg.toNat)
+    (hoff : L.unprotOff.toNat = 2 * pg.toNat) (hsz : L.unprotSize.toNat = m * pg.toNat)
+    (hend : (L.unprotOff + L.unprotSize).toNat = (2 + m) * pg.toNat)
+    (htot : L.total.toNat = (3 + m) * pg.toNat) (ops : List Op) (i : Nat) (hi : i < 3 + m) :
+    (pagesAfter pg L [.mmap L.total, .mprotect pg pg .none, .mprotect (L.unprotOff + L.unprotSize) pg .none,
+        .mlock L.unprotOff L.unprotSize, .mprotect 0 pg .ro] ops)[i]? = some
+      (if i = 0 then Prot.ro
+       else if i = 1 ∨ i = 2 + m then Prot.none
+       else (ops.getLast?.map Op.prot).getD Prot.rw) := by
+  have hn : L.total.toNat / pg.toNat = 3 + m := by rw [htot]; exact Nat.mul_div_cancel _ hP
+  have c1 : (pg.toNat ≤ i * pg.toNat ∧ i * pg.toNat < pg.toNat + pg.toNat) ↔ i = 1 := by
+    have := range_iff pg.toNat 1 2 i hP
+    rw [Nat.one_mul, Nat.two_mul] at this; rw [this]; omega
+  have c2 : ((2 + m) * pg.toNat ≤ i * pg.toNat ∧ i * pg.toNat < (2 + m) * pg.toNat + pg.toNat) ↔ i = 2 + m := by
+    have := range_iff pg.toNat (2 + m) (2 + m + 1) i hP
+    rw [Nat.add_mul (2 + m) 1, Nat.one_mul] at this; rw [this]; omega
+  have c3 : ((0 : UInt64).toNat ≤ i * pg.toNat ∧ i * pg.toNat < (0 : UInt64).toNat + pg.toNat) ↔ i = 0 := by
+    have := range_iff pg.toNat 0 1 i hP
+    rw [Nat.one_mul, Nat.zero_mul] at this
+    show (0 ≤ i * pg.toNat ∧ i * pg.toNat < 0 + pg.toNat) ↔ i = 0
+    rw [Nat.zero_add, this]; omega
+  have c4 : (2 * pg.toNat ≤ i * pg.toNat ∧ i * pg.toNat < 2 * pg.toNat + m * pg.toNat) ↔ (2 ≤ i ∧ i < 2 + m) := by
+    rw [← Nat.add_mul]; exact range_iff pg.toNat 2 (2 + m) i hP
+  unfold pagesAfter
+  rw [foldl_applyCall_get, hn, List.getElem?_replicate, if_pos hi, Option.map_some, List.foldl_append, foldl_ops,
+    hoff, hsz]
+  simp only [List.foldl_cons, List.foldl_nil, stepAt, hend, c1, c2, c3, c4]
+  congr 1
+  by_cases h0 : i = 0
+  · subst h0; simp
+  · by_cases h1 : i = 1
+    · subst h1; simp
+    · by_cases h2 : i = 2 + m
+      · subst h2; simp
+      · have : 2 ≤ i ∧ i < 2 + m := by omega
+        simp [h0, h1, h2, this]
+
+theorem malloc_ok_inv (pg size : UInt64) (L : Layout) (calls : List Sys)
+    (hm : sodium_malloc pg size = .ok L calls) :
+    L = layout pg size ∧
+    calls = [.mmap L.total, .mprotect pg pg .none, .mprotect (L.unprotOff + L.unprotSize) pg .none,
+             .mlock L.unprotOff L.unprotSize, .mprotect 0 pg .ro] := by
+  unfold sodium_malloc at hm
+  split at hm
+  · cases hm
+  · injection hm with h1 h2
+    subst h1; exact ⟨rfl, h2.symm⟩
+
+theorem protections (pg size : UInt64) (k : Nat) (hk5 : 5 ≤ k) (hk30 : k ≤ 30) (hpg : pg.toNat = 2 ^ k)
+    (h : size.toNat < 2 ^ 64 - 1 - 4 * pg.toNat) (L : Layout) (calls : List Sys)
+    (hm : sodium_malloc pg size = .ok L calls) (ops : List Op) (i : Nat) (hi : i < L.total.toNat / pg.toNat) :
+    (pagesAfter pg L calls ops)[i]? = some
+      (if i = 0 then Prot.ro
+       else if i = 1 ∨ i = L.total.toNat / pg.toNat - 1 then Prot.none
+       else (ops.getLast?.map Op.prot).getD Prot.rw) := by
+  obtain ⟨hL, hcalls⟩ := malloc_ok_inv pg size L calls hm
+  obtain ⟨hlo, hhi⟩ := pg_bounds pg k hk5 hk30 hpg
+  have hP : 0 < pg.toNat := by omega
+  obtain ⟨hsz, hoff, -, -, htot⟩ := layout_toNat pg size k hk5 hk30 hpg h
+  rw [← hL] at hsz hoff htot
+  by_cases hc : 2 ^ 64 < size.toNat + 16 + 4 * pg.toNat
+  · -- total_size wrapped to 0: no pages
+    exfalso
+    rw [hsz, total_wrap pg size k hk5 hk30 hpg h hc] at htot
+    have : 3 * pg.toNat + (2 ^ 64 - 3 * pg.toNat) = 2 ^ 64 := by omega
+    rw [this, Nat.mod_self] at htot
+    rw [htot, Nat.zero_div] at hi
+    exact Nat.not_lt_zero _ hi
+  · have hnw := total_nowrap pg size k hk5 hk30 hpg (by omega)
+    rw [← hsz] at hnw
+    rw [Nat.mod_eq_of_lt hnw] at htot
+    have hend : (L.unprotOff + L.unprotSize).toNat = (2 + (16 + size.toNat + pg.toNat - 1) / pg.toNat) * pg.toNat := by
+      rw [UInt64.toNat_add, Nat.mod_eq_of_lt (by omega), hoff, hsz, Nat.add_mul]
+    have htot' : L.total.toNat = (3 + (16 + size.toNat + pg.toNat - 1) / pg.toNat) * pg.toNat := by
+      rw [htot, hsz, Nat.add_mul]
+    have hn : L.total.toNat / pg.toNat = 3 + (16 + size.toNat + pg.toNat - 1) / pg.toNat := by
+      rw [htot']; exact Nat.mul_div_cancel _ hP
+    rw [hn] at hi ⊢
+    rw [hcalls, pages_after_malloc pg L _ hP hoff hsz hend htot' ops i hi]
+    have : 3 + (16 + size.toNat + pg.toNat - 1) / pg.toNat - 1 = 2 + (16 + size.toNat + pg.toNat - 1) / pg.toNat := by
+      omega
+    rw [this]
+
+/-! ### layout specification -/
+
+/-- all layout facts that hold for every accepted size (total_size only modulo 2^64) -/
+theorem layout_spec_mod (pg size : UInt64) (k : Nat) (hk5 : 5 ≤ k) (hk30 : k ≤ 30) (hpg : pg.toNat = 2 ^ k)
+    (h : size.toNat < 2 ^ 64 - 1 - 4 * pg.toNat) :
+    let L := layout pg size
+    L.userOff.toNat + size.toNat = L.unprotOff.toNat + L.unprotSize.toNat ∧
+    L.canaryOff.toNat + 16 = L.userOff.toNat ∧
+    L.unprotOff.toNat ≤ L.canaryOff.toNat ∧
+    L.unprotOff.toNat = 2 * pg.toNat ∧
+    L.total.toNat = (3 * pg.toNat + L.unprotSize.toNat) % 2 ^ 64 ∧
+    pg.toNat ∣ L.unprotSize.toNat ∧
+    16 + size.toNat ≤ L.unprotSize.toNat ∧ L.unprotSize.toNat < 16 + size.toNat + pg.toNat := by
+  dsimp only
+  obtain ⟨hlo, hhi⟩ := pg_bounds pg k hk5 hk30 hpg
+  obtain ⟨hsz, hoff, hcan, husr, htot⟩ := layout_toNat pg size k hk5 hk30 hpg h
+  obtain ⟨r0, r1, r2⟩ := round_facts (16 + size.toNat) pg.toNat (by omega)
+  rw [← hsz] at r0 r1 r2
+  refine ⟨?_, ?_, ?_, hoff, htot, r0, r1, r2⟩
+  · rw [husr, hoff]; omega
+  · rw [husr, hcan]; omega
+  · rw [hcan, hoff]; omega
+
+theorem layout_total_nowrap (pg size : UInt64) (k : Nat) (hk5 : 5 ≤ k) (hk30 : k ≤ 30) (hpg : pg.toNat = 2 ^ k)
+    (h : size.toNat + 16 + 4 * pg.toNat ≤ 2 ^ 64) :
+    (layout pg size).total.toNat = 3 * pg.toNat + (layout pg size).unprotSize.toNat := by
+  obtain ⟨hlo, hhi⟩ := pg_bounds pg k hk5 hk30 hpg
+  obtain ⟨hsz, -, -, -, htot⟩ := layout_toNat pg size k hk5 hk30 hpg (by omega)
+  have hnw := total_nowrap pg size k hk5 hk30 hpg h
+  rw [← hsz] at hnw
+  rw [htot, Nat.mod_eq_of_lt hnw]
+
+theorem layout_total_wrap (pg size : UInt64) (k : Nat) (hk5 : 5 ≤ k) (hk30 : k ≤ 30) (hpg : pg.toNat = 2 ^ k)
+    (h : size.toNat < 2 ^ 64 - 1 - 4 * pg.toNat) (hc : 2 ^ 64 < size.toNat + 16 + 4 * pg.toNat) :
+    (layout pg size).total = 0 ∧ (layout pg size).unprotSize.toNat = 2 ^ 64 - 3 * pg.toNat := by
+  obtain ⟨hlo, hhi⟩ := pg_bounds pg k hk5 hk30 hpg
+  obtain ⟨hsz, -, -, -, htot⟩ := layout_toNat pg size k hk5 hk30 hpg h
+  have hw := total_wrap pg size k hk5 hk30 hpg h hc
+  refine ⟨?_, by rw [hsz, hw]⟩
+  rw [← UInt64.toNat_inj, htot, hsz, hw]
+  have : 3 * pg.toNat + (2 ^ 64 - 3 * pg.toNat) = 2 ^ 64 := by omega
+  rw [this, Nat.mod_self]; rfl
+
+/-- every accepted request satisfies the hypothesis of the layout theorems -/
+theorem malloc_ok_bound (pg size : UInt64) (k : Nat) (hk5 : 5 ≤ k) (hk30 : k ≤ 30) (hpg : pg.toNat = 2 ^ k)
+    (L : Layout) (calls : List Sys) (hm : sodium_malloc pg size = .ok L calls) :
+    size.toNat < 2 ^ 64 - 1 - 5 * pg.toNat := by
+  apply Nat.lt_of_not_le
+  intro hge
+  rw [(malloc_enomem_iff pg size k hk5 hk30 hpg).mpr hge] at hm
+  cases hm
+
 end Sodium.AllocP
